@@ -108,6 +108,27 @@ SUM.update({
  "C19-d": "the `token` query parameter takes precedence over the Authorization header",
  "C20-d": "the rendezvous lookup under `RLock`, the creation under `Lock` without looking again: upload and request arriving within a few hundred ns of one another never meet",
 })
+SUM.update({
+ "C01-e": "the `params` member of `request` gets `omitempty`: a raw-params method called with nil / empty raw params has `params` dropped from the wire instead of sent as `null`",
+ "C02-e": "the HTTP client assigns the shared request header map instead of a clone and then `Set`s Content-Type on it: concurrent callers on one HTTP client crash the process",
+ "C03-e": "`resetReadDeadline` arms the deadline only when pings are on: a client with pings disabled and a timeout never notices a blackholed link",
+ "C04-e": "the `retry` / `notify` tags count as set unless their value is `false`: `retry:\"no\"` or `retry:\"0\"` makes an untagged-by-intent method re-send",
+ "C05-e": "`WithReconnectBackoff` also sets `noReconnect = false`: listed after `WithNoReconnect` it makes a no-reconnect client redial",
+ "C06-e": "notifications run inline on the frame executor: while a notification handler runs, cancel frames queued behind it are not processed",
+ "C07-e": "the forwarder marshals `reflect.ValueOf(val.Interface())`: an untyped nil element of a `chan interface{}` fails to marshal and is dropped",
+ "C08-e": "`closeChans` returns at once when `connFactory == nil` ('server side'): channels of no-reconnect clients are never closed",
+ "C09-e": "responses of calls that reach a handler echo the request's `jsonrpc` member instead of saying `2.0`",
+ "C10-e": "`meta.SpanContext` is base64-decoded into a fixed 32-byte buffer: a longer value panics outside the recover, killing the process over WebSocket",
+ "C11-e": "`createError` fills an empty codec-supplied message with `err.Error()`: a codec error with an empty message arrives with another one",
+ "C12-e": "the reverse client reads the method name formatter when the option is applied, not per connection: options in the other order disagree on reverse-call names",
+ "C14-e": "the lazy response writer lets go of the connection writer after 5 s: a slow large response is closed under the handler's write",
+ "C15-e": "the ping handler answers with `WriteControl(..., time.Time{})` (no deadline): behind a blocked writer it parks the reader for good and a following close is never read",
+ "C16-e": "client defaults moved to a package-level `Config` copied shallowly: the alias table and the param encoders are shared by all clients of the process",
+ "C17-e": "the pong handler re-arms the read deadline itself instead of signalling the loop: the loop's idle timer is no longer reset by pongs and closes a healthy quiet link",
+ "C18-e": "`setupRequestChan` captures `c.exiting` at set-up time, when it is still nil for a forward client: calls made after the close block for ever",
+ "C19-e": "`HasPerm` compares with `strings.EqualFold`: a caller holding `Read` passes a method tagged `read`",
+ "C20-e": "`waitReadCloser.Read` uses `io.ReadAtLeast(r, p, 1)`: a zero-length read returns ErrShortBuffer, which is latched, and the upload is released",
+})
 for n in sorted(mat):
     m = mat[n]
     ob = "yes" if m.get("failed_obligations") else "–"
@@ -125,7 +146,7 @@ for pid in sorted(T):
     out.append("**Theorems** (%d, all `Closed under the global context`): %s.\n" % (len(names), ", ".join("`%s`" % x for x in names)))
     out.append("**What they say, and the tie.** " + t['text'] + "\n")
     out.append("**Correspondence runs.** " + nt['fam'] + "\n")
-    for suf in ("-a", "-b", "-c", "-d"):
+    for suf in ("-a", "-b", "-c", "-d", "-e"):
         m = mat.get(pid + suf)
         if m:
             parts = []
